@@ -44,7 +44,7 @@ theorem final_log (i : SInput) : ∃ closed, (finalC i).base.log = flatLog close
     | some k =>
       exfalso
       obtain ⟨_, hpc⟩ := hb.inv.ins k hs
-      rcases hb.holder k hs with h0 | hlive
+      rcases hb.holder k hs with h0 | hlive | hsp
       · subst h0; rw [hidle] at hpc; cases todo <;> simp [callSteps] at hpc
       · have hk : k = (k - 1) + 1 := by
           rcases Nat.eq_zero_or_pos k with h0 | h0
@@ -52,6 +52,7 @@ theorem final_log (i : SInput) : ∃ closed, (finalC i).base.log = flatLog close
           · omega
         rw [hk, final_workerDone i hlive] at hpc
         cases todo <;> simp [callSteps] at hpc
+      · rw [hdone] at hsp; cases hsp
   refine ⟨closed, by simpa [hsem, openLog] using hb.inv.log_eq, hb.inv.owners, ?_, ?_⟩
   · have hout := hb.inv.out 0 (by omega) (by simp [hsem])
     rw [hidle] at hout
@@ -69,9 +70,10 @@ theorem final_log (i : SInput) : ∃ closed, (finalC i).base.log = flatLog close
     · rename_i hge
       simp only [ownedBy, List.map_eq_nil_iff, List.filter_eq_nil_iff]
       intro p hp
-      rcases hb.owners_live p hp with h0 | h1
+      rcases hb.owners_live p hp with h0 | h1 | h1
       · simp [h0]
       · simp only [beq_iff_eq]; intro hc; omega
+      · rw [hdone] at h1; cases h1
 
 /-! ## sections of worker programs are well shaped -/
 
@@ -441,7 +443,7 @@ theorem final_registered (i : SInput) :
   · exact hmem
   · exact List.Nodup.sublist List.filter_sublist List.nodup_range
 
-theorem c_abort (i : SInput) (hlate : (finalC i).late = []) : cAbort i (modelC i) = true := by
+theorem c_abort (i : SInput) : cAbort i (modelC i) = true := by
   have hr := RInv_final i
   have hdone := (final_done i).1
   unfold cAbort
@@ -466,10 +468,9 @@ theorem c_abort (i : SInput) (hlate : (finalC i).late = []) : cAbort i (modelC i
         simp only [List.all_eq_true]
         intro w hw
         have hwr := (hmem w).mp hw
-        rcases (FInv_final i).f_set c hre hf w hwr with h1 | h1
-        · show ((finalC i).flags[w]?).getD false = true
-          simp [h1]
-        · rw [hlate] at h1; cases h1
+        have h1 := (FInv_final i).f_set c hre hf w hwr
+        show ((finalC i).flags[w]?).getD false = true
+        simp [h1]
       | suite =>
         have hms := hr.r_msecs (Or.inr ⟨c, hre⟩) hf
         rw [model_mainStops, hms, hlen]
@@ -690,26 +691,10 @@ theorem c_brokenRunner (i : SInput) : cBrokenRunner i (modelC i) = true := by
 
 /-! ## headline -/
 
-/-- **Headline (partial because of finding `lostStop`)**: for every input outside the finding class — no
-registered worker still had its `startTestRun` pending when `run()` aborted — the executable specification
-holds of the model's trace.
-Full statement (false of the code, see `C13_lostStop_witness`): `∀ i, holds i (modelC i) = true`. -/
-theorem holds_model_partial (i : SInput) (h : (finalC i).late = []) : holds i (modelC i) = true := by
+/-- **Headline**: the executable specification holds of the model's trace, for every input. -/
+theorem holds_model (i : SInput) : holds i (modelC i) = true := by
   simp only [holds, clauses, List.all_cons, List.all_nil, Bool.and_true, Bool.and_eq_true]
-  exact ⟨c_oneAtATime i, c_delivered i, c_complete i, c_brokenRunner i, c_abort i h, c_terminates i⟩
-
-/-- for **every** input, also inside the finding class, every clause other than `abort` holds -/
-theorem holds_model_but_abort (i : SInput) :
-    ∀ c ∈ clauses, c.1 ≠ "abort" → c.2 i (modelC i) = true := by
-  intro c hc hne
-  simp only [clauses, List.mem_cons, List.not_mem_nil, or_false] at hc
-  rcases hc with rfl | rfl | rfl | rfl | rfl | rfl
-  · exact c_oneAtATime i
-  · exact c_delivered i
-  · exact c_complete i
-  · exact c_brokenRunner i
-  · exact absurd rfl hne
-  · exact c_terminates i
+  exact ⟨c_oneAtATime i, c_delivered i, c_complete i, c_brokenRunner i, c_abort i, c_terminates i⟩
 
 /-! ## readable statements -/
 
@@ -798,21 +783,24 @@ theorem C13_broken_runner_suite (wi : Nat) (w : Worker) (hf : w.faults = []) :
     (((segSecs (suiteProg wi w).segs).flatten).filter isBE).length = (if w.boom then 1 else 0) :=
   suite_broken_count wi w hf
 
-/-- **C13 (abort — partial, finding `lostStop`)** — if `run()` raised: the exception is one the input causes; in
-the suite flavour `stop()` reached the caller's result once per still-registered worker (or the `stop()`
-itself raised and cut the loop); in the stream flavour, **provided no registered worker still had its
-`startTestRun` pending at the abort**, every still-registered worker's result has `shouldStop` set.
-Full statement (without the proviso) is false of the code: `C13_lostStop_witness`. -/
-theorem C13_abort_partial (i : SInput) (c : Cause) (h : (finalC i).result = some (.raised c)) :
+/-- **C13 (abort)** — if `run()` raised: the exception is one the input causes; in the suite flavour `stop()`
+reached the caller's result once per still-registered worker (or the `stop()` itself raised and cut the
+loop); in the stream flavour every still-registered worker's result has `shouldStop` set at the end - no
+later step of any worker clears it (main forwards a worker's `startTestRun`, which resets the flag, before
+it starts the thread). -/
+theorem C13_abort (i : SInput) (c : Cause) (h : (finalC i).result = some (.raised c)) :
     Conc.causeOk i c = true
     ∧ (i.flavour = .suite → (finalC i).msecs = stopSections i.mfaults 0 (finalC i).reg.length)
-    ∧ (i.flavour = .stream → (finalC i).late = [] → ∀ w ∈ (finalC i).reg, (finalC i).flags[w]? = some true) := by
+    ∧ (i.flavour = .stream → ∀ w ∈ (finalC i).reg, (finalC i).flags[w]? = some true) := by
   have hr := RInv_final i
-  refine ⟨hr.r_cause c (Or.inl h), hr.r_msecs (Or.inr ⟨c, h⟩), ?_⟩
-  intro hf hlate w hw
-  rcases (FInv_final i).f_set c h hf w hw with h1 | h1
-  · exact h1
-  · rw [hlate] at h1; cases h1
+  exact ⟨hr.r_cause c (Or.inl h), hr.r_msecs (Or.inr ⟨c, h⟩), fun hf w hw => (FInv_final i).f_set c h hf w hw⟩
+
+/-- **C13 (a stop request is never undone)** — after *any* schedule, once `run()` has raised in the stream flavour,
+every registered worker's flag is set; and a started worker's remaining items never contain `startTestRun`,
+the only step that clears a flag. -/
+theorem C13_stop_sticks (i : SInput) (sched : List Nat) (c : Cause) (h : (reach i sched).result = some (.raised c))
+    (hf : i.flavour = .stream) : ∀ w ∈ (reach i sched).reg, (reach i sched).flags[w]? = some true :=
+  (FInv_runC sched (FInv_init i) (QInv_init i) (RInv_init i)).f_set c h hf
 
 /-- on normal return nobody is told to stop -/
 theorem C13_no_spurious_stop (i : SInput) (h : (finalC i).result = some .returned) :
@@ -820,22 +808,16 @@ theorem C13_no_spurious_stop (i : SInput) (h : (finalC i).result = some .returne
   have := (RInv_final i).r_clean (by simp [(final_done i).1]) (Or.inr h)
   exact ⟨this.1, this.2.1⟩
 
-/-! ## the finding -/
+/-! ## non-vacuity -/
 
-/-- one worker, stream flavour, `make_tests` raises after yielding it: `run()` aborts before the worker has
-forwarded its `startTestRun` -/
-def lostStopInput : SInput :=
+/-- the regression input of the lost-stop defect (one worker, `make_tests` raises after yielding it): `run()` raises
+with the worker registered, and its stop flag stays set -/
+def stopKeptInput : SInput :=
   { flavour := .stream, workers := [{ tests := [{ kind := .success, tags := [] }], boom := false, faults := [] }],
     mkRaise := some 1, intr := none, mfaults := [], tb := 4, sched := [] }
 
-/-- **finding `lostStop`** — the model exhibits the defect of the code: the input is in the class, `run()` raised,
-worker 0 is still registered, was told to stop, and its `shouldStop` ends up `False`; the `abort` clause fails. -/
-theorem C13_lostStop_witness :
-    (finalC lostStopInput).late = [0] ∧ (finalC lostStopInput).result = some (.raised .makeTests)
-    ∧ (finalC lostStopInput).reg = [0] ∧ (finalC lostStopInput).flags = [false]
-    ∧ cAbort lostStopInput (modelC lostStopInput) = false := by decide
-
-/-! ## non-vacuity -/
+example : (finalC stopKeptInput).result = some (.raised .makeTests) ∧ (finalC stopKeptInput).reg = [0]
+    ∧ (finalC stopKeptInput).flags = [true] ∧ holds stopKeptInput (modelC stopKeptInput) = true := by decide
 
 def exSuite : SInput :=
   { flavour := .suite,
@@ -851,11 +833,11 @@ def exStreamAbort : SInput :=
   { flavour := .stream,
     workers := [{ tests := [{ kind := .success, tags := [] }], boom := false, faults := [] },
                 { tests := [{ kind := .failure, tags := [] }], boom := false, faults := [] }],
-    mkRaise := none, intr := none, mfaults := [2], tb := 4, sched := [0, 0, 1, 2, 1, 2, 0, 0, 0, 1, 2] }
+    mkRaise := none, intr := none, mfaults := [2], tb := 4, sched := [0, 0, 0, 0, 1, 2, 1, 2, 0, 0, 0, 0, 0, 1, 2] }
 
 /-- the caller's StreamResult raises at its third status call: `run()` raises, both workers are still registered
-and both are told to stop (outside the finding class) -/
-example : (modelC exStreamAbort).result = some (.raised .injected) ∧ (finalC exStreamAbort).late = []
+and both are told to stop -/
+example : (modelC exStreamAbort).result = some (.raised .injected)
     ∧ registered (modelC exStreamAbort) = [0, 1] ∧ (modelC exStreamAbort).flags = [true, true]
     ∧ holds exStreamAbort (modelC exStreamAbort) = true := by decide
 
